@@ -95,6 +95,17 @@ PROGRAMS = {
         S("li", "a1", 9, lab="foo_else"), S("li", "a0", 2), S("ret"),
         S("add", "a0", "a0", "a1", lab="combine"), S("ret"),
     ],
+    "handler-direct": [           # an interrupt handler installed through utvec (a function nobody calls), next to a called one
+        S("la", "t0", "@isr", lab="start"), S("csrrw", "zero", 5, "t0"), S("li", "a0", 1), S("call", "@work"), S("li", "a7", 10), S("ecall"),
+        S("li", "s0", 3, lab="work"), S("add", "a0", "a0", "s0"), S("ret"),
+        S("csrrw", "t0", 64, "t0", lab="isr"), S("li", "s1", 1), S("csrrw", "t0", 64, "t0"), S("uret"),
+    ],
+    "handler-copied": [           # the handler's address goes through a register copy before it is installed
+        S("la", "t0", "@isr", lab="start"), S("mv", "t1", "t0"), S("csrrw", "zero", 5, "t1"), S("li", "a0", 1), S("call", "@work"),
+        S("li", "a7", 10), S("ecall"),
+        S("li", "s0", 3, lab="work"), S("add", "a0", "a0", "s0"), S("ret"),
+        S("csrrw", "t0", 64, "t0", lab="isr"), S("li", "s1", 1), S("csrrw", "t0", 64, "t0"), S("uret"),
+    ],
     "two-functions": [
         S("li", "a0", 3, lab="start"), S("jal", "ra", "@g"), S("mv", "s2", "a0"), S("call", "@h"), S("add", "a0", "a0", "s2"),
         S("li", "a7", 10), S("ecall"),
@@ -191,7 +202,10 @@ def render(prog, style=None, regmap=None, labmap=None):
                 r = regmap.get(o["v"], o["v"])
                 ops.append(("x%d" % r) if g("regs", "abi") == "num" else ("fp" if g("regs", "abi") == "fp" and r == 8 else ABI[r]))
             elif o["k"] == "i":
-                ops.append(fmt_imm(o["v"], g("imm", "dec"), idx))
+                how = g("imm", "dec")
+                if how == "char" and mn.lower().startswith("csr") and o is st["ops"][1]:
+                    how = "dec"      # the number of a CSR is not an immediate: it has no character notation
+                ops.append(fmt_imm(o["v"], how, idx))
             elif o["k"] == "l":
                 ops.append(labmap.get(o["v"], o["v"]))
             else:
